@@ -113,9 +113,17 @@ func peerScenario(scripts [][]peerIn) func() func() []string {
 						out.Count = repo.Count()
 					case "get":
 						l, _ := repo.Get(bg, in.Min, in.Max)
+						// scores are read at return (the list holds the book's own Peer records, whose
+						// score is only meaningful at that moment); the membership is read later, the
+						// way a caller that keeps the list while others query reads it
+						scores := make([]int32, len(l))
+						for i, p := range l {
+							scores[i] = p.Score
+						}
+						vsched.Yield()
 						var s []string
-						for _, p := range l {
-							s = append(s, fmt.Sprintf("%s=%d", p.Address, p.Score))
+						for i, p := range l {
+							s = append(s, fmt.Sprintf("%s=%d", p.Address, scores[i]))
 						}
 						sort.Strings(s)
 						out.List = strings.Join(s, ",")
@@ -173,6 +181,8 @@ func c20Scenarios(thorough bool) []*scenario {
 		"add-a,score,count|add-a,get":  {{add(a), score(a, 1), count}, {add(a), getNeg}},
 		"add-a|add-b|score-a,score-b":  {{add(a)}, {add(b)}, {score(a, 1), score(b, -1)}},
 		"add-a,save|score-a,get|add-a": {{add(a), save}, {score(a, 5), get}, {add(a)}},
+		// a caller keeps its result while another caller's query returns a different set
+		"add-a,add-b,get|score-b,get-neg": {{add(a), add(b), get}, {score(b, -3), peerIn{Kind: "get", Min: -5, Max: -1}}},
 	}
 	var names []string
 	for n := range sets {
